@@ -269,3 +269,33 @@ def reach_avoiding_edges(f, start, removed):
             if (b, s) not in removed and s not in seen:
                 st.append(s)
     return seen
+
+
+def error_exit_blocks(f):
+    """blocks that belong to an error exit: the `?` residual conversion, or an explicit `_0 = Err(..)`"""
+    out = set()
+    for bi, b in enumerate(f.blocks):
+        t = b["t"]
+        if t["k"] == "call" and (t.get("f") or "").endswith("FromResidual::from_residual"):
+            out.add(bi)
+        for s in b["s"]:
+            if s["r"] == "agg" and s.get("adt") == "core::result::Result::Err" and place_local(s["d"]) == 0 and not place_proj(s["d"]):
+                out.add(bi)
+    return out
+
+
+def must_pass(f, callee_suffixes, extra_ok_blocks=()):
+    """True iff every path from entry to a normal (non-error) return passes a call to one of the callees.
+    Returns (ok, offending_return_block)"""
+    targets = set()
+    for bi, t in f.calls():
+        for c in (t.get("f"), t.get("fr")):
+            if c and any(c == s or c.endswith(s) for s in callee_suffixes):
+                targets.add(bi)
+    avoid = error_exit_blocks(f) | targets | set(extra_ok_blocks)
+    # diverging blocks (panics) are not returns
+    reach = f.reachable_from(0, avoid=avoid)
+    for bi in reach:
+        if f.blocks[bi]["t"]["k"] == "ret":
+            return False, bi
+    return bool(targets), None
